@@ -594,7 +594,24 @@ def merge_rules(crate, res):
                     okmsg = m[0] == "call" and call_name(v, m) == "std::string::ToString::to_string" and strip_refs(m[3][0]) == ("param", 2)
                     ok = okmsg and strip_refs(t[3][2]) == ("param", 3)
         if not ok:
-            fs.append(fnd("C14.MERGE", v, "a foreign error is not reported as Unexpected{its own text} at the merge location"))
+            # another formulation (a private constructor called with the text): a verdict only when the foreign error's text or the
+            # merge location do not even flow into what is returned
+            flows_text = flows_loc = False
+            ret_terms = [deep(v, v.origin_call(r)) for r in rets]
+            for bb_ in v.reach:
+                for st_ in v.blocks[bb_]["stmts"]:
+                    if st_["k"] == "assign" and st_["place"]["l"] == 0 and not st_["place"]["p"]:
+                        ret_terms.append(deep(v, v.origin_rv(st_["rv"], bb_)))
+            for tm_ in ret_terms:
+                if term_mentions(tm_, lambda x: x[0] == "call" and call_name(v, x) == "std::string::ToString::to_string" and x[3] and strip_refs(x[3][0]) == ("param", 2)):
+                    flows_text = True
+                if term_mentions(tm_, lambda x: x == ("param", 3)):
+                    flows_loc = True
+            is_error_call = any(v.callee(r).deserr_trait() == "DeserializeError" and v.callee(r).name == "error" for r in rets)
+            if flows_text and flows_loc and not is_error_call:
+                fs.append(und("C14.MERGE", v, "how a foreign error becomes this error was not read (not `Self::error(None, Unexpected { msg: other.to_string() }, location)`): not recognised (undecided)"))
+            else:
+                fs.append(fnd("C14.MERGE", v, "a foreign error is not reported as Unexpected{its own text} at the merge location"))
     res.add("C14.MERGE", max(n, 1), fs)
     res.floor("generic MergeWithError<E: Error> impls of the built-in error types", n, 2)
 
